@@ -255,6 +255,8 @@ def classify_env(pid, r, after_resched=False):
     if k == 1:
         return ("concrete" if r[1] == 0 else "tie") if not after_resched else None
     if k == 5:
+        if pid == "C14" and r[1] == 10 and len(r) > 2 and r[2] == 4:
+            return "concrete"      # the all-asset level-2 query does not return an asset's own (live) values
         return "concrete" if ENV_MON.get(pid) == r[1] else None
     if k == 7:
         if r[1] == 0:              # no schedule of the batch explains what the step did
@@ -264,7 +266,7 @@ def classify_env(pid, r, after_resched=False):
         if after_resched and pid != "C15":
             return None
         cats = r[1] if len(r) > 1 else 0
-        proj = {"C08": 8 | 64 | 256, "C05": 8 | 64, "C10": 8 | 32 | 64 | 128, "C11": 64 | 128 | 32, "C14": 8 | 64, "C15": 8 | 256}.get(pid, 511)
+        proj = {"C08": 8 | 64 | 256, "C05": 8 | 64, "C10": 8 | 32 | 64 | 128, "C11": 64 | 128 | 32, "C14": 8 | 64 | 32, "C15": 8 | 256}.get(pid, 511)
         if not (k == 2 or cats & proj):
             return None
         return "tie"
